@@ -219,3 +219,11 @@ func verifHeapRemove(i int) *tssItem { return heap.Remove(&tssQ, i).(*tssItem) }
 //@   loop 0 invariant len(msg.Record) == 4+int(calls("EncryptedServerCookie.Encode")) && calls("EncryptedServerCookie.Encode") <= mathint(iter()) && (addedCookie == (calls("EncryptedServerCookie.Encode") > 0))
 //@   ensures ok: result1 == nil ==> 6 <= len(result0.Record) && len(result0.Record) <= 13 && len(result0.Record) == 5+int(calls("EncryptedServerCookie.Encode"))
 //@   ensures none: result1 != nil ==> calls("EncryptedServerCookie.Encode") == 0
+
+// ---- NTS-KE server: one connection. Whatever the peer sends, the handler returns (no crash) ----
+//@ func handleKeyExchangeTLS
+//@   noframe
+//@   requires conn != nil && log != nil && provider != nil
+//@ func writeNTSKEErrorMsgTLS
+//@   noframe
+//@   requires conn != nil && log != nil
